@@ -40,6 +40,14 @@ def gen_prog(rng):
     cur = set(p[3])
     for _ in range(rng.choice([0, 1, 2, 3, 4])):
         r = rng.random()
+        if rng.random() < 0.15:
+            # a transfer: whatever empties the relation upstream of it must still be found, with the executor's help
+            eng = rng.choice([e for e in mp.ENGINES if e != eng])
+            p = ("xfer", eng, p)
+            if rng.random() < 0.3:
+                counter[0] += 1
+                p = ("mat", 40 + counter[0], p)
+            continue
         if r < 0.10:
             a = rng.choice([0, 1, 2])
             p = ("un", ("slice", a, a), mp.DEFAULT, p)
